@@ -1,6 +1,7 @@
 """C01 / C02 / C03 / C12: tulz::rwp::Resource under the controlled scheduler, lock-step against the Lean model,
 with direct trace monitors for each property (exclusion, deadlock / idle restoration, FIFO order, reader sharing)."""
 import json
+import re
 
 import lib
 import schedtie
@@ -81,14 +82,18 @@ def gen_programs(rng, tier):
             if rng.chance(1, 4):
                 c = c.lower()
             elif c == "R" and rng.chance(1, 6):
-                c = "N"          # a read section taken while holding a read lock on an unrelated Resource
+                c = rng.pick("NNO")      # a read section taken while holding a read (N) / write (O) lock of an unrelated Resource
+            elif c == "W" and rng.chance(1, 7):
+                c = rng.pick("MP")       # a write section taken while holding a write (M) / read (P) lock of the unrelated Resource
+            elif c == "R" and style == 0 and rng.chance(1, 5):
+                c = "Q"                  # nested read sections of the same Resource (writer-free programs only)
             p += c
         progs.append(p)
     return ",".join(progs)
 
 
 RENDEZVOUS = ["Rb,Rb", "Rb,Rb,Rb", "Rb,Rb,R", "H,Rb,Rb", "H,Rb,Rb,Rb", "HW,Rb,Rb", "HR,Rb,Rb", "H,Rb,Rb,Rb,Rb"]
-DFS_CONFIGS_QUICK = ["W,R,R", "W,R,W", "R,W,R", "W,W,R", "R,R,W", "R,W,N"]
+DFS_CONFIGS_QUICK = ["W,R,R", "W,R,W", "R,W,R", "W,W,R", "R,R,W", "R,W,N", "W,M,O", "Q,R"]
 DFS_CONFIGS_THOROUGH = DFS_CONFIGS_QUICK + ["R,W,N", "W,R,R,W", "R,W,R,W", "W,R,W,R", "WR,R,W", "RW,W,R", "H,Rb,Rb", "W,RR,R", "R,R,R"]
 
 
@@ -183,10 +188,11 @@ def monitor(prop, progs, run):
                 r = {"t": t[1], "k": t[2], "call": i, "park": None, "ret": None, "enq": None, "ucall": None}
                 reqs.append(r)
                 cur[t[1]] = r
-            elif t[0] in ("park", "unlock") and t[1] in cur and cur[t[1]]["enq"] is None:
-                cur[t[1]]["enq"] = i            # end of the critical section in which the request was registered
-                if t[0] == "park":
-                    cur[t[1]]["park"] = i
+            elif t[0] in ("park", "unlock") and t[1] in cur and cur[t[1]]["ret"] is None and (cur[t[1]]["enq"] is None or (t[0] == "park" and cur[t[1]]["park"] is None)):
+                if cur[t[1]]["enq"] is None:
+                    cur[t[1]]["enq"] = i        # end of the first critical section of the request
+                if t[0] == "park" and cur[t[1]]["park"] is None:
+                    cur[t[1]]["park"] = i       # the request is queued for certain (it may have polled before: not the first event)
             elif t[0] == "ucall" and t[1] in cur:
                 cur[t[1]]["ucall"] = i
             elif t[0] == "ret" and t[1] in cur and cur[t[1]]["ret"] is None:
@@ -218,8 +224,8 @@ def monitor(prop, progs, run):
                 if a["k"] == "R" and b["k"] == "R":
                     # legitimate when they share a batch, or when a was admitted earlier and is only slow to wake up:
                     # then every writer queued between them has completed its section before b is granted
-                    between = [c for c in reqs if c["k"] == "W" and c["enq"] is not None and b["enq"] is not None
-                               and a["enq"] < c["enq"] < b["enq"]]
+                    # (a writer that was observed parked after a was parked and before b was even issued)
+                    between = [c for c in reqs if c["k"] == "W" and c["park"] is not None and a["park"] < c["park"] < b["call"]]
                     if all(c["ucall"] is not None and c["ucall"] < b["ret"] for c in between):
                         continue
                     msgs.append("reader %s (called at event %d) was granted at %d before a writer queued ahead of it had its turn, overtaking reader %s parked at %d" %
@@ -243,7 +249,9 @@ def monitor(prop, progs, run):
                     writer_busy.add(t[1])
             elif t[0] == "ucall":
                 after_ucall.add(t[1])
-            elif t[0] == "unlock" and t[1] in after_ucall:
+            elif t[0] == "uret" and t[1] in after_ucall:
+                # a writer counts as active until its unlock call has RETURNED (an implementation may hand the lock over after
+                # it has released its internal mutex, e.g. by releasing semaphore permits)
                 after_ucall.discard(t[1])
                 writer_busy.discard(t[1])
             elif t[0] == "park":
@@ -268,9 +276,14 @@ def model_check(progs, runs):
     lines = []
     idx = []
     for r in runs:
+        if "Q" in progs_of(r):
+            # nested sections of one Resource by one thread are not programs of the model (a thread holds at most one
+            # lock of the Resource there): such runs are judged by the trace monitors only
+            idx.append(None)
+            continue
         steps = canonical_steps(parse(r))
         start = len(lines)
-        pg = progs_of(r)
+        pg = re.sub(r"H\d+", "H", progs_of(r))
         # `@<bits>,…`: thread 0 first holds the write lock (with the id counters moved close to 2^bits), then runs its probe
         lines.append("rwp init HWR," + pg.split(",", 1)[1] if pg.startswith("@") else "rwp init WR," + pg)
         lines.extend(steps)
@@ -278,7 +291,11 @@ def model_check(progs, runs):
         idx.append((start, len(lines)))
     out, rc, err = lib.run_driver(lines)
     res = []
-    for (a, b), r in zip(idx, runs):
+    for ab, r in zip(idx, runs):
+        if ab is None:
+            res.append(None)
+            continue
+        a, b = ab
         seg = out[a:b]
         bad = None
         for i, o in enumerate(seg):
@@ -333,6 +350,13 @@ def run_tie(prop, spec, tier, seed):
     for i in range(nrand):
         progs = rng.pick(RENDEZVOUS) if rng.chance(1, 6) else gen_programs(rng, tier)
         lines.append("run %s seed %d pts" % (progs, rng.next() % (1 << 40)))
+    # queue shapes with a read entry followed by a write entry behind an active writer, and a late reader (what a reader that
+    # polls instead of queueing would overtake): many random schedules of the same small programs
+    ntarget = 60 if tier == "quick" else 1500
+    for cfg in ("W,R,W,R", "W,R,W,R,R", "W,R,W,W,R", "H2,R,W,L", "H2,R,W,L,L", "H3,R,W,W,L", "H2,R,W,L,W"):
+        for i in range(ntarget):
+            # half of them with the sticky scheduler (seed >= 2^62: the running thread is rarely interrupted)
+            lines.append("run %s seed %d pts" % (cfg, rng.next() % (1 << 40) + ((1 << 62) if i % 2 else 0)))
     # crowds: one writer holds until every other thread (14-36 writers in random order with a few readers) has queued up
     # behind it — queue lengths around 16 and 32 entries, where a container inside the lock would have to grow
     ncrowd = 40 if tier == "quick" else 600
@@ -348,7 +372,7 @@ def run_tie(prop, spec, tier, seed):
     nwarp = 48 if tier == "quick" else 600
     for i in range(nwarp):
         bits = rng.pick([8, 16, 31, 32, 32, 32])
-        lines.append("run @%d,%s seed %d pts" % (bits, gen_programs(rng, "thorough").replace("N", "R"), rng.next() % (1 << 40)))
+        lines.append("run @%d,%s seed %d pts" % (bits, gen_programs(rng, "thorough").translate(str.maketrans("NOMPQ", "RRWWR")), rng.next() % (1 << 40)))
     runs += schedtie.run_batch(binary, lines)
 
     executed = [r for r in runs if r.status is not None]
@@ -368,7 +392,7 @@ def run_tie(prop, spec, tier, seed):
     res.rule = ("executions of the real Resource.cpp under the controlled scheduler: corpus schedules (%d) + stateless DFS with <=%d preemptions over %s "
                 "(%d executions, %s) + %d seeded random schedules of random 2-%d-thread programs, reader-rendezvous programs, crowds (a holder + 16-40 queued requests) and long-busy Resources (id counters at 2^8/2^16/2^31/2^32 - 3); "
                 "distinct_nontrivial = distinct (program, sequence of critical sections/notifications) with at least one parked request" %
-                (ncorpus, 2 if tier == "quick" else 3, cfgs, dfs_total, "complete within the bound" if dfs_complete else "budget-limited", nrand + ncrowd + nwarp,
+                (ncorpus, 2 if tier == "quick" else 3, cfgs, dfs_total, "complete within the bound" if dfs_complete else "budget-limited", nrand + ncrowd + nwarp + 7 * ntarget,
                  5 if tier == "quick" else 7))
     res.dist = {"status": stat, "executions_with_contention": parks, "dfs_executions": dfs_total, "random_executions": nrand, "crowd_executions": ncrowd, "id_warp_executions": nwarp,
                 "skipped_after_crashes": len(runs) - len(executed)}
